@@ -341,11 +341,12 @@ type c15Owned struct {
 // c15Run: cases whose ambient chain holds other interceptors run inside a synctest bubble, so that "the NACK
 // responder's retransmission goroutine has finished" is a point the interpreter can wait for.
 func c15Run(t *testing.T, ops []string, o *Out) {
+	app, ops := appOf(ops)
 	if o != nil && o.Amb != nil && len(o.Amb.Before)+len(o.Amb.After) > 0 {
-		synctest.Test(t, func(t *testing.T) { c15RunCase(t, ops, o, synctest.Wait) })
+		synctest.Test(t, func(t *testing.T) { c15RunCase(t, ops, o, synctest.Wait, app) })
 		return
 	}
-	c15RunCase(t, ops, o, func() {})
+	c15RunCase(t, ops, o, func() {}, app)
 }
 
 // c15Sent: what a retransmitting party keeps of a packet written with header.SSRC == the stream's SSRC
@@ -357,7 +358,7 @@ type c15Sent struct {
 	wire bool // it reached the bottom writer
 }
 
-func c15RunCase(t *testing.T, ops []string, o *Out, settle func()) {
+func c15RunCase(t *testing.T, ops []string, o *Out, settle func(), app *App) {
 	ic := newHdrExt(t)
 	// the interceptor under test inside the case's ambient chain (ambient_test.go); the chain's RTCP reader is
 	// where NACKs for a NACK-responder neighbour come in
@@ -463,10 +464,11 @@ func c15RunCase(t *testing.T, ops []string, o *Out, settle func()) {
 					return
 				}
 				s := atoi(m["s"])
-				info := &interceptor.StreamInfo{SSRC: uint32(s), RTPHeaderExtensions: ds,
-					RTCPFeedback: []interceptor.RTCPFeedback{{Type: "nack", Parameter: "pli"}, {Type: "transport-cc"}, {Type: "nack"}}}
+				info := app.BindInfo(&interceptor.StreamInfo{SSRC: uint32(s), RTPHeaderExtensions: ds,
+					RTCPFeedback: []interceptor.RTCPFeedback{{Type: "nack", Parameter: "pli"}, {Type: "transport-cc"}, {Type: "nack"}}})
+				nfb := len(info.RTCPFeedback)
 				writers[s] = chain.BindLocalStream(info, bottom)
-				if len(info.RTPHeaderExtensions) != len(ds) || len(info.RTCPFeedback) != 3 {
+				if len(info.RTPHeaderExtensions) != len(ds) || len(info.RTCPFeedback) != nfb {
 					o.P("streaminfo-modified")
 				}
 				for i := range ds {
@@ -474,6 +476,8 @@ func c15RunCase(t *testing.T, ops []string, o *Out, settle func()) {
 						o.P("streaminfo-modified")
 					}
 				}
+				// BindLocalStream has returned: the StreamInfo and the extension list in it are the application's again
+				app.AfterBind(info)
 			case "retain":
 				retain = true
 			case "buf":
@@ -786,7 +790,16 @@ func init() {
 			}
 			return 1500
 		},
-		Gen: c15Gen,
+		// the application of the case (streaminfo_test.go): how it writes the feedback list down, what it does with its
+		// StreamInfo (and the extension list in it) after BindLocalStream returned
+		Gen: func(r *Rng, tier string, idx int) Case {
+			ar := NewRng(r.s ^ 0xA9915)
+			cs := c15Gen(r, tier, idx)
+			if cs.Class != "conc" && ar.Chance(2, 3) {
+				cs.Ops = withApp(cs.Ops, genApp(ar, 0, 3, 2, 0))
+			}
+			return cs
+		},
 		Run: c15Run,
 	})
 }
